@@ -48,7 +48,8 @@ Pred(mac, st, a) ==
               ELSE "F"
          [] mac = "readlink"   ->                          \* "Assert the reading of a link's target relative path"
               IF ~IsLink(fs, p) THEN "F"
-              ELSE IF fs[p].t = Parent(p) THEN (IF a.relabs THEN "F" ELSE "?")   \* DECISION (D11): link to its own directory ("" or ".")
+              ELSE IF fs[p].t = Parent(p) THEN "?"   \* DECISION (D11): link to its own directory - relative(p, p) is documented to
+                                                     \* return p itself, the real filesystem stores "."
               ELSE B3(~a.relabs /\ a.rel = RelC(fs[p].t, Parent(p)))
          [] mac = "readlink_abs" ->                        \* "Assert the reading of a link's target absolute path"
               IF ~a.qok THEN "F" ELSE B3(IsLink(fs, p) /\ fs[p].t = a.q)
